@@ -45,7 +45,7 @@ type c04item struct {
 
 func (it c04item) String() string {
 	switch it.kind {
-	case "r", "e", "dup", "mal", "mal2", "strid":
+	case "r", "e", "dup", "mal", "mal2", "strid", "badreq":
 		return fmt.Sprintf("%s%d", it.kind, it.slot)
 	}
 	return it.kind
@@ -69,6 +69,15 @@ func (s c04stream) String() string {
 	return strings.Join(recs, " ")
 }
 
+// c04failingParams blocks in MarshalJSON until its gate opens, then fails: a
+// Batch whose later spec cannot be encoded, while other requests are created.
+type c04failingParams struct{ gate chan struct{} }
+
+func (p c04failingParams) MarshalJSON() ([]byte, error) {
+	<-p.gate
+	return nil, fmt.Errorf("these params cannot be encoded")
+}
+
 type c04run struct {
 	ops    []string // "C" or "B:cnc"
 	stream c04stream
@@ -83,10 +92,22 @@ func c04exec(c *vt.Ctx, r c04run) {
 		rig := peer.NewClientRig(c, r.ctrl, peer.ClientOpts{PipeLike: true})
 		ctx := context.Background()
 		var slots []*c04slot
+		var pendingGate chan struct{}
 		// issue the operations one by one so that each reaches the wire
 		for i, op := range r.ops {
 			tag := fmt.Sprintf("op%d", i)
 			n0 := len(rig.Sent())
+			if op == "BF" {
+				// first spec fine (an id is allocated), second spec blocks in its encoder and then fails
+				gate := make(chan struct{})
+				rig.GoBatch(tag, ctx, []jrpc2.Spec{{Method: "m", Params: []int{i, 0}}, {Method: "m", Params: c04failingParams{gate}}})
+				rig.Settle()
+				if got := rig.Sent()[n0:]; len(got) != 0 {
+					c.Failf("a Batch whose encoding is still in progress transmitted %q", got)
+				}
+				pendingGate = gate
+				continue
+			}
 			if op == "C" {
 				rig.GoCall(tag, ctx, "m", []int{i})
 			} else {
@@ -97,6 +118,12 @@ func c04exec(c *vt.Ctx, r c04run) {
 				rig.GoBatch(tag, ctx, specs)
 			}
 			rig.Settle()
+			if pendingGate != nil {
+				// the half-encoded Batch fails now, after another request was created
+				close(pendingGate)
+				pendingGate = nil
+				rig.Settle()
+			}
 			sent := rig.Sent()[n0:]
 			if len(sent) != 1 {
 				c.Failf("operation %s transmitted %d records, want 1: %q", op, len(sent), sent)
@@ -112,6 +139,10 @@ func c04exec(c *vt.Ctx, r c04run) {
 					slots = append(slots, &c04slot{op: i, tag: tag, id: string(m.ID)})
 				}
 			}
+		}
+		if pendingGate != nil {
+			close(pendingGate)
+			rig.Settle()
 		}
 		ids := map[string]bool{}
 		for _, s := range slots {
@@ -156,6 +187,8 @@ func c04exec(c *vt.Ctx, r c04run) {
 				s := slots[it.slot]
 				s.want = append(s.want, "anyerror")
 				return fmt.Sprintf(`{"jsonrpc":"2.0","id":%s,"error":5}`, s.id)
+			case "badreq": // an INVALID server-initiated request that happens to carry a pending id: not a reply
+				return fmt.Sprintf(`{"jsonrpc":"1.0","id":%s,"method":"nosuchcb","params":[%q]}`, slots[it.slot].id, tok)
 			case "strid": // a different id: the JSON string that spells a pending numeric id
 				return fmt.Sprintf(`{"jsonrpc":"2.0","id":"%s","result":%q}`, strings.Trim(slots[it.slot].id, `"`), tok)
 			case "unk":
@@ -213,6 +246,12 @@ func c04exec(c *vt.Ctx, r c04run) {
 			for i, op := range r.ops {
 				tag := fmt.Sprintf("op%d", i)
 				info, n := rig.Returned(tag)
+				if op == "BF" {
+					if n != 1 || !strings.HasPrefix(info, "batcherr:") {
+						c.Failf("%s: a Batch with an unencodable spec returned %q x%d, want an encoding error", tag, info, n)
+					}
+					continue
+				}
 				var mine []*c04slot
 				for _, s := range slots {
 					if s.op == i {
@@ -354,7 +393,7 @@ func init() {
 	vt.Register(&vt.Check{
 		Prop:  "C04",
 		Level: "exploration",
-		Rule: "operation sets {Call,Call}, {Call,Batch[c,n,c]}, {Batch[c,c],Call}, {Call,Call,Call}, {Batch[n,c,n]}, {Batch[n,c],Call}, {Batch[c,n,c],Batch[n,c]} against a raw peer; reply streams = every permutation of the replies x every partition into records (objects / arrays) " +
+		Rule: "operation sets {Call,Call}, {Call,Batch[c,n,c]}, {Batch[c,c],Call}, {Call,Call,Call}, {Batch[n,c,n]}, {Batch[n,c],Call}, {Batch[c,n,c],Batch[n,c]}, {Call, Batch that fails to encode after another request was created, Call, Call} against a raw peer; reply streams = every permutation of the replies x every partition into records (objects / arrays) " +
 			"x one extra item {duplicate reply, malformed member with a pending id, unknown id, string spelling of a pending numeric id, server notification, server callback, non-object member} at every position, x one reply omitted; " +
 			"records are delivered with a settle in between (first reply wins) or back to back (any reply sent for the id), plus delay-bounded schedules and seeded random streams with up to 24 outstanding requests. " +
 			"distinct_nontrivial = distinct (operations, stream, mode, delay set) with at least two replies",
@@ -371,6 +410,9 @@ func init() {
 func c04slotsOf(ops []string) int {
 	n := 0
 	for _, op := range ops {
+		if op == "BF" {
+			continue
+		}
 		if op == "C" {
 			n++
 		} else {
@@ -381,8 +423,8 @@ func c04slotsOf(ops []string) int {
 }
 
 func c04cases(e vt.Env, yield func(vt.Case) bool) {
-	opsets := [][]string{{"C", "C"}, {"C", "B:cnc"}, {"B:cc", "C"}, {"C", "C", "C"}, {"B:ncn"}, {"B:nc", "C"}, {"B:cnc", "B:nc"}}
-	extras := []string{"", "dup", "mal", "mal2", "strid", "unk", "note", "cb", "nonobj"}
+	opsets := [][]string{{"C", "C"}, {"C", "B:cnc"}, {"B:cc", "C"}, {"C", "C", "C"}, {"B:ncn"}, {"B:nc", "C"}, {"B:cnc", "B:nc"}, {"C", "BF", "C", "C"}, {"BF", "B:cc", "C"}}
+	extras := []string{"", "dup", "mal", "mal2", "strid", "badreq", "unk", "note", "cb", "nonobj"}
 	for oi, ops := range opsets {
 		n := c04slotsOf(ops)
 		base := make([]c04item, n)
@@ -413,7 +455,7 @@ func c04cases(e vt.Env, yield func(vt.Case) bool) {
 							for k := 0; k <= len(p); k++ {
 								if k == pos {
 									switch ex {
-									case "dup", "mal", "mal2", "strid":
+									case "dup", "mal", "mal2", "strid", "badreq":
 										items = append(items, c04item{kind: ex, slot: pos % n})
 									default:
 										items = append(items, c04item{kind: ex})
@@ -533,7 +575,7 @@ func c04cases(e vt.Env, yield func(vt.Case) bool) {
 		}
 		for k := 0; k < rng.IntN(4); k++ {
 			if rng.IntN(4) == 0 {
-				items = append(items, c04item{kind: "strid", slot: rng.IntN(n)})
+				items = append(items, c04item{kind: []string{"strid", "badreq"}[rng.IntN(2)], slot: rng.IntN(n)})
 			}
 			items = append(items, c04item{kind: []string{"unk", "note", "cb", "nonobj"}[rng.IntN(4)]})
 		}
